@@ -67,6 +67,7 @@ import (
 	"strings"
 
 	"verifharness/lib"
+	"zzgen/gen"
 
 	"github.com/ipld/go-ipld-prime/datamodel"
 )
@@ -85,7 +86,7 @@ func main() {
 		if err != nil {
 			panic(err)
 		}
-		np := zzProto(f[1], f[2] == "r")
+		np := gen.ZzProto(f[1], f[2] == "r")
 		obs := "noproto"
 		if np != nil {
 			obs, _ = lib.SchBuildWith(func() datamodel.NodeBuilder { return np.NewBuilder() }, f[3], v)
@@ -105,7 +106,7 @@ func repoDir() string {
 // generate + build one batch; returns the path of the built driver ("" on failure)
 func buildBatch(dir string, schemas []*lib.SchTy, rng *lib.Rng, st *batchStatus) string {
 	os.RemoveAll(dir)
-	if err := os.MkdirAll(dir, 0o755); err != nil {
+	if err := os.MkdirAll(filepath.Join(dir, "gen"), 0o755); err != nil {
 		st.Log = err.Error()
 		return ""
 	}
@@ -141,7 +142,7 @@ func buildBatch(dir string, schemas []*lib.SchTy, rng *lib.Rng, st *batchStatus)
 				adj.CfgUnionMemlayout[name] = "interface"
 			}
 		}
-		gengo.Generate(dir, "main", ts, adj)
+		gengo.Generate(filepath.Join(dir, "gen"), "gen", ts, adj)
 		return nil
 	})
 	st.GenSec = time.Since(t0).Seconds()
@@ -152,12 +153,12 @@ func buildBatch(dir string, schemas []*lib.SchTy, rng *lib.Rng, st *batchStatus)
 	st.Generated = true
 	// prototype getter + driver + module files
 	var g strings.Builder
-	g.WriteString("package main\n\nimport \"github.com/ipld/go-ipld-prime/datamodel\"\n\nfunc zzProto(name string, repr bool) datamodel.NodePrototype {\n\tswitch name {\n")
+	g.WriteString("package gen\n\nimport \"github.com/ipld/go-ipld-prime/datamodel\"\n\nfunc ZzProto(name string, repr bool) datamodel.NodePrototype {\n\tswitch name {\n")
 	for _, n := range names {
 		fmt.Fprintf(&g, "\tcase %q:\n\t\tif repr {\n\t\t\treturn _%s__ReprPrototype{}\n\t\t}\n\t\treturn _%s__Prototype{}\n", n, n, n)
 	}
 	g.WriteString("\t}\n\treturn nil\n}\n")
-	os.WriteFile(filepath.Join(dir, "zz_getter.go"), []byte(g.String()), 0o644)
+	os.WriteFile(filepath.Join(dir, "gen", "zz_getter.go"), []byte(g.String()), 0o644)
 	os.WriteFile(filepath.Join(dir, "zz_main.go"), []byte(driverSrc), 0o644)
 	harnessDir, _ := filepath.Abs("harness")
 	repo, _ := filepath.Abs(repoDir())
@@ -166,7 +167,7 @@ func buildBatch(dir string, schemas []*lib.SchTy, rng *lib.Rng, st *batchStatus)
 	if sum, err := os.ReadFile(filepath.Join(repo, "go.sum")); err == nil {
 		os.WriteFile(filepath.Join(dir, "go.sum"), sum, 0o644)
 	}
-	files, _ := filepath.Glob(filepath.Join(dir, "ipldsch_*.go"))
+	files, _ := filepath.Glob(filepath.Join(dir, "gen", "ipldsch_*.go"))
 	for _, f := range files {
 		b, _ := os.ReadFile(f)
 		st.Lines += bytes.Count(b, []byte("\n"))
